@@ -54,7 +54,9 @@ def _reexec() -> None:
         return
     env = dict(os.environ)
     env.update(want)
-    env["PYTHONPATH"] = os.pathsep.join([HERE, deps] + ([pp] if pp else []))
+    # VERIF_REPO (mutation testing only): import myst_parser from another checkout instead of /repo
+    alt = [os.environ["VERIF_REPO"]] if os.environ.get("VERIF_REPO") else []
+    env["PYTHONPATH"] = os.pathsep.join(alt + [HERE, deps] + ([pp] if pp else []))
     os.execve(PY, [PY, os.path.abspath(__file__)] + sys.argv[1:], env)
 
 
